@@ -178,6 +178,12 @@ def run(ctx):
         s = "".join(rng.choice(["a", "b", "\n", "\n", "é", "😀", " ", ".", "~", "\t", "\r", "\r\n"]) for _ in range(rng.randrange(0, 14)))
         n = len(s.encode())
         fm.append((s, rng.choice([0, n, rng.randrange(0, n + 3)])))
+    # coordinates beyond 255 / 65535 / 2^16 characters on ONE line and over many lines (narrow counters, width-limited formatting)
+    for n in (254, 255, 256, 257, 65534, 65535, 65536, 65537, 70001, 131072):
+        fm.append(("x" * (n + 3), n))
+        fm.append(("é" * (n // 2 + 2), 2 * (n // 2)))
+        fm.append(("ab\n" * 3 + "y" * (n + 1), 9 + n))
+        fm.append(("\n" * n + "abc", n + 1))
     if getattr(ctx, "replay", None) and ctx.replay.get("stream") == "errfmt":
         fm = [tuple(ctx.replay["case"])]
     lines = [C.hexs(s) + "\t" + str(o) for s, o in fm]
@@ -200,7 +206,7 @@ def run(ctx):
             if text != exp:
                 ctx.violation("errfmt", [s, o], text, exp, "rendered message does not show reason, coordinates and a caret under the column")
                 continue
-        if a != b0:
+        if a != b0 and len(s) <= 4000:        # (longer texts are judged by the checker's own oracle above; the model driver is not asked to keep up)
             ctx.tie_broken("stream errfmt: model vs implementation", f"{(s, o)!r}: impl {a} model {b0}")
     listed = {k["id"]: k for k in ctx.known if k.get("status") == "known"}
     if f14:
